@@ -287,18 +287,14 @@ register(Contract(
 ))
 
 AFS = "pymarkdown/application_file_scanner.py::ApplicationFileScanner."
-register(Assumed(AFS + "determine_files_to_scan_with_args", returns="Tuple[List[str], bool, bool]", pure=True, fresh_result=False,
-                 ensures=["forall(lambda a, b: implies(a < b, result[0][a] != result[0][b]), 0, len(result[0]))"],
-                 raises=[Raises("Exception")],
-                 why="TEMPORARY: file discovery (C19 puts determine_files_to_scan under contract): sorted, duplicate-free list; error flag; list-only flag"))
-
 register(Contract(
     key=MAIN + "__find_files_to_scan", properties=P + ["C19"],
     types={"args": "Namespace"},
+    calls={"ApplicationFileScanner.determine_files_to_scan": AFS + "determine_files_to_scan"},
     ensures=["result[0] == (args.primary_subparser == 'scan-stdin')",
              "forall(lambda a, b: implies(a < b, result[1][a] != result[1][b]), 0, len(result[1]))",
              "implies(result[0], len(result[1]) == 0 and not result[2] and not result[3])"],
-    raises=[Raises("Exception")],
+    raises=[],
     modifies=[],
 ))
 
